@@ -263,12 +263,63 @@ def twins(binpath, res, seed):
                         f"content, threshold 1, yet verification failed: {o.get('verify')}", c, o, "ok")
 
 
+def returned_layout(binpath, res, seed, n):
+    """layouts: what verification hands back is what the signatures cover.  A signed layout is put on the wire with one more
+    key-table entry (filed under an identifier that is not its key's, under another key's identifier, under a made-up one):
+    whether the block is then refused or accepted, the returned layout's key table - read from the value in memory - is the
+    signed one"""
+    import pipeline
+    rng = common.rng_for(seed, PROP, 556)
+    W = scen.World(binpath)
+    plans, reqs = [], []
+    for i in range(n):
+        owner = rng.choice(["ed0", "edp0", "ec-a", "rsa-2048-a"])
+        layout, plan = pipeline.valid_layout(rng, W)
+        plans.append((owner, layout))
+        reqs.append((layout, [owner], "new"))
+    wires = scen.sign_all(binpath, reqs, nproc=1)
+    cases = []
+    for (owner, layout), w in zip(plans, wires):
+        signed_ids = sorted(w["signed"]["keys"])
+        for how in ("control", "foreign_key_under_made_up_id", "table_key_under_second_id", "foreign_key_under_table_id_respelled"):
+            w2 = copy.deepcopy(w)
+            outsider = W.pub(rng.choice(["ed7", "edp3", "ec-c"]))
+            if how == "foreign_key_under_made_up_id":
+                w2["signed"]["keys"]["ab" * 32] = outsider
+            elif how == "table_key_under_second_id" and signed_ids:
+                w2["signed"]["keys"]["cd" * 32] = copy.deepcopy(w["signed"]["keys"][signed_ids[0]])
+            elif how == "foreign_key_under_table_id_respelled" and signed_ids:
+                w2["signed"]["keys"][signed_ids[0].upper()] = outsider
+            elif how != "control":
+                continue
+            cases.append({"op": "block", "text": json.dumps(w2), "threshold": 1, "auth": [W.pub(owner)],
+                          "meta": {"kind": "returned_layout:" + how, "signed_ids": signed_ids, "nsteps": len(w["signed"]["steps"])}})
+    obs = common.run_batch(binpath, cases)
+    for c, o in zip(cases, obs):
+        m = c["meta"]
+        if any(x in o for x in ("crash", "watchdog", "missing")) or "auth_err" in o:
+            res.inconclusive.append(f"returned-layout case failed in the executor: {str(o)[:200]}")
+            continue
+        ok = o.get("verify") == "ok"
+        res.note([c["text"][:200], m["kind"]], True, cls=[f"kind:{m['kind']}", "accepted" if ok else "rejected"])
+        if m["kind"].endswith("control") and not ok:
+            res.inconclusive.append(f"returned-layout control rejected: {o.get('verify') or o.get('parse')}")
+        if ok:
+            got = sorted(k for k, _ in o.get("ret_layout_keys", []))
+            own = sorted(k for _, k in o.get("ret_layout_keys", []))
+            if got != m["signed_ids"] or own != m["signed_ids"]:
+                res.violate("returned-content-not-what-was-signed:key_table",
+                            f"verification succeeded and returned a layout whose key table holds {got} (own ids {own}); the signatures "
+                            f"cover a layout with the table {m['signed_ids']} ({m['kind']})", c, o, m["signed_ids"])
+
+
 def main(ctx):
     res = common.Result()
     n = 300 if not ctx.thorough else 6000
     for p in common.pmap(shard, [(ctx.bin, ctx.seed, s, n) for s in range(common.NPROC)]):
         res.merge(p)
     twins(ctx.bin, res, ctx.seed)
+    returned_layout(ctx.bin, res, ctx.seed, 40 if not ctx.thorough else 800)
     return common.finish(
         PROP, ctx.tier, ctx.seed, res, t0=ctx.t0,
         rule="signed link blocks with per-key signature entries drawn from {valid, bit-flipped, duplicated entry, "
@@ -281,6 +332,6 @@ def main(ctx):
         required=["accepted", "rejected", "t=0", "t>n", "kind:dup", "kind:resign", "kind:mislabeled",
                   "kind:flipped", "kind:unauthorised", "kind:other_content", "kind:unknown_scheme_key", "kind:auth_key_declares_second_id",
                   "kind:auth_key_declares_other_id", "kind:replayed_after_genuine_verification", "kind:history_genuine_other_content", "kind:twin_control", "kind:twin_signature_on_other_twin",
-                  "kind:signature_over_reference_bytes", "once", "repeated-labels",
+                  "kind:signature_over_reference_bytes", "kind:returned_layout:control", "kind:returned_layout:foreign_key_under_made_up_id", "once", "repeated-labels",
                   "accepted_with_t>=2"],
         min_evals=1000)
